@@ -211,6 +211,18 @@ func (v *Val) writeYAML(b *strings.Builder, depth int, inline bool) {
 			}
 		}
 	case 's':
+		if blockScalarOK(v.S) {
+			// literal block scalar, keep-chomping off: the value ends with
+			// exactly one newline
+			b.WriteString("|\n")
+			for _, l := range strings.Split(strings.TrimSuffix(v.S, "\n"), "\n") {
+				b.WriteString(ind)
+				b.WriteString("  ")
+				b.WriteString(l)
+				b.WriteByte('\n')
+			}
+			return
+		}
 		b.WriteString(jsonStr(v.S))
 		b.WriteByte('\n')
 	case 'n':
@@ -436,7 +448,7 @@ var (
 	plainKeys   = []string{"a", "b", "c", "d", "id", "name", "x", "y"}
 	awkwardKeys = []string{"", "a/b", "~t", "0", "-", "ü", "k e", "a~1b", "1e3", "true", "null", "a.b", "\"q\""}
 	plainStrs   = []string{"a", "b", "c", "foo", "bar", "x y"}
-	awkwardStrs = []string{"", "\"", "\\", "\n", "\t", "\u0001", "é", "日本", "😀", "<>&", "a\nb", "true", "1", "1e3", "~", "null", "- x", "a: b", "#", " lead", "trail ", "@ [", "+ 1", "^ {}"}
+	awkwardStrs = []string{"line one\nline two\n", "tail\n", "", "\"", "\\", "\n", "\t", "\u0001", "é", "日本", "😀", "<>&", "a\nb", "true", "1", "1e3", "~", "null", "- x", "a: b", "#", " lead", "trail ", "@ [", "+ 1", "^ {}"}
 	symbols     = []float64{1, 2, 3}
 )
 
@@ -454,6 +466,7 @@ type GenCfg struct {
 	Huge       bool // one sub-document above 64 KiB (a single line of a native diff when it is removed)
 	NumLikeKey bool // allow keys that look like numbers / "-"
 	YAMLFloats bool // allow .inf / .nan (only meaningful for YAML carriers)
+	YAMLKeys   bool // allow mapping keys that are not strings (1, true, ~): YAML only
 }
 
 func genCfg(c *Chooser) GenCfg {
@@ -521,6 +534,12 @@ func genVal(c *Chooser, g GenCfg, depth int) *Val {
 				continue
 			}
 			v.set(k, genVal(c, g, depth+1))
+		}
+		if g.YAMLKeys && c.Chance(1, 3) {
+			v.RawKeys = make([]bool, len(v.Keys))
+			v.Keys = append(v.Keys, []string{"7", "true", "~", "2.5", "null"}[c.Int(5)])
+			v.Vals = append(v.Vals, genScalar(c, g))
+			v.RawKeys = append(v.RawKeys, true)
 		}
 		return v
 	case 1: // general array
@@ -896,4 +915,22 @@ func shuffleArrays(c *Chooser, v *Val, dup bool) *Val {
 		}
 	}
 	return v
+}
+
+// blockScalarOK: printable lines, no leading blanks, exactly one final newline.
+func blockScalarOK(s string) bool {
+	if !strings.HasSuffix(s, "\n") || strings.HasSuffix(s, "\n\n") || len(s) < 2 {
+		return false
+	}
+	for _, l := range strings.Split(strings.TrimSuffix(s, "\n"), "\n") {
+		if l == "" || l[0] == ' ' || l[0] == '\t' || strings.TrimSpace(l) != l {
+			return false
+		}
+		for _, r := range l {
+			if r < 0x20 || r == 0x7f || r > 0x7e {
+				return false
+			}
+		}
+	}
+	return true
 }
